@@ -200,7 +200,7 @@ pub fn gen_uri(r: &mut Rng) -> GenUri {
                 .join(".")
         }
     };
-    let port = if r.chance(1, 2) { Some(if r.chance(1, 3) { *r.pick(&[1u16, 80, 443, 631, 8631, 65535]) } else { r.range(1, 65535) as u16 }) } else { None };
+    let port = if r.chance(1, 2) { Some(if r.chance(1, 3) { *r.pick(&[0u16, 1, 80, 443, 631, 8631, 65535]) } else { r.range(1, 65535) as u16 }) } else { None };
     let path = if r.chance(1, 5) {
         String::new()
     } else if r.chance(1, 6) {
